@@ -953,6 +953,13 @@ def stress_defs(prefix='K'):
         x = Def(prefix + nm, True, 'none', [rp], 1, [], [],
                 [('A', 'unit', []), ('B', 'tuple', [('g0', P('u16'))]), ('C', 'named', [('s', ('ty', Str())), ('n', P('u8'))]), ('D', 'unit', [])])
         defs.append(x)
+    # an enum with more variants than a byte can number: the tag of a deep-copy enum is a usize index, the one of a zero-copy
+    # enum its C representation; variants 255 .. 259 straddle the byte boundary, one of them carries a field
+    many = [('V%d' % k, 'unit', []) for k in range(260)]
+    many[257] = ('V257', 'tuple', [('g0', P('u16'))])
+    defs.append(Def(prefix + 'X5', True, 'none', [], 1, [], [], list(many)))
+    many[257] = ('V257', 'unit', [])
+    defs.append(Def(prefix + 'ZE3', True, 'zero', ['C'], 1, [], [], list(many)))
     return defs
 
 
